@@ -111,15 +111,12 @@ func (w *World) doE(o fsx.Op) fsx.Out {
 	if w.Dead {
 		return fsx.Out{Err: "HANG"}
 	}
-	ch := make(chan fsx.Out, 1)
-	go func() { ch <- w.E.Do(o) }()
-	select {
-	case out := <-ch:
-		return out
-	case <-time.After(HangTimeout):
+	w.E.Guard = HangTimeout
+	out := w.E.Do(o)
+	if out.Err == "HANG" {
 		w.Dead = true
-		return fsx.Out{Err: "HANG"}
 	}
+	return out
 }
 
 // Kdo runs f on the oracle thread.
